@@ -9,7 +9,8 @@ RULE = ("every public callable of jesse.indicators with a `sequential` parameter
         "call (NaN==NaN, rtol 1e-9, atol 1e-9 x input scale; strings/booleans exactly). All indicators are evaluated for "
         "every series and violations are bucketed by (indicator, field). distinct = (indicator, params, series, k); "
         "non-trivial = the compared prefix holds at least one finite value and the input after k differs from a "
-        "continuation-free series (always true for non-constant kinds).")
+        "continuation-free series (always true for non-constant kinds). Plus a deterministic sweep: every value of every `*matype` "
+        "parameter (and, thorough tier, every source type), one at a time, on flat-middle / leading-zero-volume / lattice series.")
 ASSUMPTIONS = [
     "a prefix call that raises for a too-short input is skipped for that k and counted, not failed",
     "minmax may differ in the last `order` positions of the prefix (documented confirmation delay)",
@@ -186,3 +187,32 @@ def run_shard(acc, shard, nshards, seed, tier):
             acc.violation(sig, msg, small, size=small['n'] * 1000 + (0 if small['params'] == 'default' else 500))
 
     run()
+
+    # categorical parameters, one at a time, every value: each `*matype` of every indicator that has one (the smoothing a
+    # composite indicator delegates to) and every source type, on the structured series whose shape the smoothers react to
+    # (a flat stretch in the middle, a zero-volume lead-in, ties on a price grid). Deterministic in VERIF_SEED; sharded by indicator.
+    sweep_kinds = ['flat-middle', 'leading-zero-volume', 'lattice'] if tier == 'quick' else ['flat-middle', 'leading-zero-volume', 'lattice', 'walk', 'gappy', 'flatish']
+    mts = sorted(set(gi.MATYPES))
+    for idx, (name, (f, sig)) in enumerate(sorted(ind.items())):
+        if idx % nshards != shard:
+            continue
+        cats = []
+        for k, v in sig.parameters.items():
+            if k.endswith('matype') and isinstance(v.default, int) and not isinstance(v.default, bool):
+                cats += [(k, m) for m in mts if m != v.default]
+            elif k == 'source_type' and tier != 'quick':
+                cats += [(k, t) for t in gi.SOURCE_TYPES if t != v.default]
+        for j, (pk, pv) in enumerate(cats):
+            for kind in sweep_kinds:
+                n = 300
+                case = dict(kind=kind, n=n, seed=(seed * 7919 + idx * 131 + j) % (2 ** 31), ks=[150, 240, n - 1], params={name: {pk: pv}}, scale=100.0)
+                vios, stats = eval_case(case, only=[name])
+                acc.evaluations += stats['evals']
+                acc.exclude('prefix or full call raised (short input / invalid parameter combination)', stats['skipped'])
+                d = acc.sub.setdefault('categorical-parameter-sweep', {'evaluations': 0})
+                d['evaluations'] += stats['evals']
+                for i in range(stats['nontrivial']):
+                    acc.nontrivial.add(f"sweep|{name}|{pk}|{pv}|{kind}|{i}")
+                acc.classes['sweep:' + ('matype' if pk.endswith('matype') else pk)] += 1
+                for sg, msg, small in vios:
+                    acc.violation(sg, msg, small, size=small['n'] * 1000 + 500)
